@@ -464,7 +464,7 @@ Definition recovered (N P : Z) (ss : list session) (n : nat) (torn : option Z) :
 
 Definition hit_after (N P : Z) (ss : list session) (n : nat) (torn : option Z) (k : key) : option (list atom) :=
   let dk := crash_disk (all_writes P ss) n torn in
-  hit N P (oinfo_of ss) dk (rebuild N P (oinfo_of ss) dk) k.
+  hit N (oinfo_of ss) dk (rebuild N P (oinfo_of ss) dk) k.
 
 (* what the theorems compare a hit with: the complete stored stream of one session *)
 Definition full_stream (s : session) : list atom := stream (s_obj s) (s_len s).
@@ -491,4 +491,4 @@ Definition run_case (N P : Z) (ops : list op) (n : nat) (torn : option Z) (queri
   let dk := crash_disk ws n torn in
   let r := rebuild N P (oinfo_of ss) dk in
   (map (fun w => (w_slot w, wr_len w)) ws, r_nofuel r,
-   map (fun k => match hit N P (oinfo_of ss) dk r k with Some c => Some (segments c []) | None => None end) queries).
+   map (fun k => match hit N (oinfo_of ss) dk r k with Some c => Some (segments c []) | None => None end) queries).
